@@ -161,8 +161,8 @@ package raft
 //@   ghostcode after call returnConn 1: c.greturned := c.greturned + 1
 //@   ensures [C20.rpc-on-checked-conn] forall(x, Exch(x) != old(Exch(x)) ==> x == c && ConnChecked(x, pool))
 //@   ensures [C20.rpc-on-checked-conn] result0 == nil ==> c != nil && Exch(c) == old(Exch(c)) + 1
-//@   ensures [C15.returned-only-after-complete-exchange] result0 == nil ==> ConnReturned(c) == old(ConnReturned(c)) + 1 && ConnClosed(c) == old(ConnClosed(c))
-//@   ensures [C15.closed-otherwise] result0 != nil && c != nil ==> ConnClosed(c) && ConnReturned(c) == old(ConnReturned(c))
+//@   ensures [C15+C17.returned-only-after-complete-exchange] result0 == nil ==> ConnReturned(c) == old(ConnReturned(c)) + 1 && ConnClosed(c) == old(ConnClosed(c))
+//@   ensures [C15+C17.closed-otherwise] result0 != nil && c != nil ==> ConnClosed(c) && ConnReturned(c) == old(ConnReturned(c))
 //@   ensures [C15.no-conn-no-exchange] c == nil ==> result0 != nil && forall(x, Exch(x) == old(Exch(x)))
 //@   ensures [C15.other-conns-untouched] forall(x, x != c ==> ConnClosed(x) == old(ConnClosed(x)) && ConnReturned(x) == old(ConnReturned(x)))
 //@   ensures [C20.pool-inv] PoolInv(pool)
